@@ -242,6 +242,15 @@ func (a *adapter) profile(ac *acct, isCand bool, income common.Address) []byte {
 	return b
 }
 
+// incomeOf: a candidate's profile names itself as income address; the two genesis deputies keep naming I (every
+// RegisterTx of a registered candidate rewrites the profile), so that fees and term rewards have one destination.
+func (a *adapter) incomeOf(f *acct) common.Address {
+	if f.name == "M1" || f.name == "M2" {
+		return a.byName["I"].addr
+	}
+	return f.addr
+}
+
 // realTx turns an abstract transaction into a real signed one (fresh object every time: the processor mutates
 // GasUsed / box data).
 func (a *adapter) realTx(t *atx, exp uint64) *types.Transaction {
@@ -277,10 +286,10 @@ func (a *adapter) realTx(t *atx, exp uint64) *types.Transaction {
 		}
 	case "reg", "topup":
 		typ, amount, to = params.RegisterTx, units(t.Amt), nil
-		data = a.profile(f, true, f.addr)
+		data = a.profile(f, true, a.incomeOf(f))
 	case "unreg":
 		typ, to = params.RegisterTx, nil
-		data = a.profile(f, false, f.addr)
+		data = a.profile(f, false, a.incomeOf(f))
 	case "income": // candidate profile update naming another income address
 		typ = params.RegisterTx
 		data = a.profile(f, true, *to)
@@ -448,14 +457,20 @@ func (a *adapter) worldOf(T, I uint32, h0 int) *world {
 		engine.Failf("world %s: the setup blocks occupy heights 1..%d of the genesis term", key, len(a.setup))
 	}
 	if h0 > len(a.setup) {
-		// a term-boundary world: empty blocks up to h0, the snapshot block of term 1 among them; the scenario must not
-		// contain a snapshot block and must start before term 1's deputies sign (they are not all in the key universe)
-		if uint32(h0) < T || uint32(h0) > T+I {
-			engine.Failf("world %s: the last setup block must lie in T..T+I", key)
+		// A term-boundary world.  Block 4 prepares what a term change needs within a few scenario steps: both genesis
+		// deputies hold a deposit (M2 the larger one: it is re-elected next to a3, M1 is not), and M1 and a4 vote for a3.
+		// Then empty blocks up to h0, the snapshot block of term 1 among them; the scenario must not contain a snapshot
+		// block and starts before term 1's deputies sign.
+		if T <= uint32(len(a.setup))+1 || uint32(h0) < T || uint32(h0) > T+I {
+			engine.Failf("world %s: the snapshot block must follow the setup blocks and the last setup block must lie in T..T+I", key)
 		}
 		wd.stab = true
 		a.setParams(wd)
 		parent := wd.setup[len(wd.setup)-1]
+		s4 := []*atx{mk("topup", "M1", "", 300*lemo, 130000), mk("topup", "M2", "", 400*lemo, 130000),
+			mk("vote", "M1", "a3", 0, 40000), mk("vote", "a4", "a3", 0, 40000)}
+		parent = a.buildOn(a.gen, parent, a.realAll(s4), s4, "S4."+key)
+		wd.setup = append(wd.setup, parent)
 		for int(parent.Height()) < h0 {
 			parent = a.buildOn(a.gen, parent, nil, nil, fmt.Sprintf("S%d.%s", parent.Height()+1, key))
 			wd.setup = append(wd.setup, parent)
